@@ -358,6 +358,17 @@ def check_pit_token(ctx, rng):
                 if late:
                     await S.sleep_until_ms(t_arr + L + 5)
                 data = bytes(make_data(list(name), MetaInfo(), gen.rand_bytes(rng, rng.choice([0, 5, 300, 300, 1000, 1990, 2040, 4000, 8000])), DigestSha256Signer()))
+                if rng.random() < 0.3:
+                    # reply bytes (and with them the Fragment / the envelope) of every length around the one-octet / three-octet boundary
+                    # of a TLV length
+                    target = rng.randint(225, 262)
+                    base_len = len(make_data(list(name), MetaInfo(), b'', DigestSha256Signer()))
+                    for c_len in range(max(0, target - base_len - 4), max(0, target - base_len) + 1):
+                        cand = bytes(make_data(list(name), MetaInfo(), gen.rand_bytes(rng, c_len), DigestSha256Signer()))
+                        if len(cand) <= target:
+                            data = cand
+                    if 250 <= len(data) <= 258:
+                        ctx.event('reply-of-%d-octets' % len(data))
                 ctx.klass('reply-size-' + ('<253' if len(data) < 253 else '<2048' if len(data) < 2048 else '>=2048'))
                 if rng.random() < 0.15:
                     # the handler replies with something that is itself a link-layer packet (an application-made Nack for the Interest,
@@ -492,6 +503,8 @@ def run(ctx):
     ctx.need_event('token-interests-of-one-name-outstanding-together')
     ctx.need_event('nack-after-a-forward-step-of-the-wall-clock')
     ctx.need_event('token-reply-after-reconnect')
+    for k in (253, 254):
+        ctx.need_event('reply-of-%d-octets' % k)
     ctx.need_class('reply-size->=2048')
     ctx.need_class('token-interest-signed')
     ctx.need_class('token-interest-parameterised')
